@@ -267,6 +267,36 @@ pub fn search(seed: u64, n: u64) {
         check_cut_and_full(&mut stats, &mut rng_ring, &a, &b, "first_inside_ring_of_second", 150, 150);
         check_cut_and_full(&mut stats, &mut rng_ring, &b, &a, "second_inside_ring_of_first", 150, 150);
     }
+    // an operand ALL OF WHOSE POINTS (control points included) lie inside an earlier operand that does not cover it: a bar across the notch
+    // of a U, a plate over the hole of a frame - the union has to fill the notch / the hole (own stream; from seeded change C11-m10)
+    let mut rng_n = Rng(seed ^ 0x207C4C11);
+    for k in 0..(4 + n / 20) {
+        let (x0, y0) = (rng_n.r(8.0, 20.0), rng_n.r(8.0, 20.0));
+        let (w, h) = (rng_n.r(50.0, 70.0), rng_n.r(45.0, 65.0));
+        let (x1, y1) = (x0 + w, y0 + h);
+        let (xa, xb) = (x0 + w * rng_n.r(0.3, 0.4), x0 + w * rng_n.r(0.6, 0.7));
+        let sets: Vec<Vec<P>> = if k % 2 == 0 {
+            let yn = y0 + h * rng_n.r(0.25, 0.4);
+            let u = polygon(&[Coord2(x0, y0), Coord2(x0, y1), Coord2(xa, y1), Coord2(xa, yn), Coord2(xb, yn), Coord2(xb, y1), Coord2(x1, y1), Coord2(x1, y0)]);
+            let (by0, by1) = (yn + (y1 - yn) * rng_n.r(0.2, 0.4), yn + (y1 - yn) * rng_n.r(0.6, 0.8));
+            let bar = rect(x0 + (xa - x0) * rng_n.r(0.3, 0.7), by0, xb + (x1 - xb) * rng_n.r(0.3, 0.7), by1);
+            stats.count("chain.bar_across_notch");
+            let mut v = vec![vec![redirect(&mut rng_n, &u)], vec![redirect(&mut rng_n, &bar)]];
+            if k % 4 == 2 { v.insert(0, vec![circle(x1 + 12.0, y1 + 12.0, rng_n.r(4.0, 9.0))]); }
+            v
+        } else {
+            let (ya, yb) = (y0 + h * rng_n.r(0.3, 0.4), y0 + h * rng_n.r(0.6, 0.7));
+            let frame = if k % 4 == 1 { vec![rect(x0, y0, x1, y1), rect(xa, ya, xb, yb)] } else { vec![rect(xa, ya, xb, yb), rect(x0, y0, x1, y1)] };
+            let m = rng_n.r(2.0, 6.0);
+            let plate = if k % 3 == 0 { circle((xa + xb) * 0.5, (ya + yb) * 0.5, ((xb - xa).max(yb - ya)) * 0.5 * 1.45 + m) } else { rect(xa - m, ya - m, xb + m, yb + m) };
+            stats.count("chain.plate_over_hole");
+            vec![frame, vec![redirect(&mut rng_n, &plate)]]
+        };
+        stats.case(&format!("covered_points_not_covered_shape {}", ops_detail(&sets.iter().collect::<Vec<_>>())), true);
+        check_chain(&mut stats, &mut rng_n, &sets, &format!("add_chain.probe_membership.{}", if k % 2 == 0 { "bar_across_notch" } else { "plate_over_hole" }), 200, 260);
+        let e = Expr::Add((0..sets.len()).map(Expr::Leaf).collect());
+        check_combine(&mut stats, &mut rng_n, &e, &sets, &format!("combine.add.probe_membership.{}", if k % 2 == 0 { "bar_across_notch" } else { "plate_over_hole" }), 200, 260);
+    }
     for _ in 0..n {
         // cut / full_intersect over the C01 pairs
         let pair = gen_pair(&mut rng);
